@@ -453,6 +453,9 @@ class PrefixDomain:
             l, r = kids(a)
             for lhs, rhs, o in ((l, r, op), (r, l, SWAP[op])):
                 key = self.lv_key(lhs)
+                # a cast that changes the value (char -> unsigned char of a negative character) must not be looked through
+                if key is not None and key in env and self.ev(lhs, dict(env)) != env[key]:
+                    key = None
                 if key is not None and key in env:
                     c = self.ev(rhs, dict(env))
                     env[key] = vmeet(env[key], allowed(o, c))
